@@ -269,6 +269,7 @@ func execRunInner(t *testing.T, rs RunSpec, keepTrace bool, res *Result) {
 		// the order of their exit records is not part of the deterministic run
 		sim.Q()
 		res.Digest = sim.Digest()
+		panicsInRun := len(sim.Panics)
 		if keepTrace {
 			res.Trace = append([]string(nil), sim.Trace...)
 		}
@@ -281,10 +282,23 @@ func execRunInner(t *testing.T, rs RunSpec, keepTrace bool, res *Result) {
 		for _, l := range sim.Live() {
 			res.Leaked = append(res.Leaked, l)
 		}
-		for _, pr := range sim.Panics {
-			// a panic inside code under test that no scenario oracle claimed
+		for i, pr := range sim.Panics {
 			res.Stats = addStat(res.Stats, "panic.task", 1)
-			_ = pr
+			if i >= panicsInRun || len(res.Violations) > 0 || res.Abort != "" {
+				continue
+			}
+			top := pr.Stack
+			if len(top) > 1200 {
+				top = top[:1200]
+			}
+			if strings.HasPrefix(pr.Task, "world.") {
+				// a task of the simulated world, not code under test
+				res.Abort = fmt.Sprintf("world task %s panicked: %s\n%s", pr.Task, pr.Value, top)
+				continue
+			}
+			// a panic inside a goroutine of the code under test that no scenario oracle claimed:
+			// the daemon process would have died at this point, whatever the property
+			res.Violations = append(res.Violations, Violation{Prop: rs.Prop, Class: "panic", Msg: fmt.Sprintf("goroutine %s of the code under test panicked (the daemon process dies): %s\n%s", pr.Task, pr.Value, top)})
 		}
 		res.Steps = sim.Steps
 		res.SimTimeMs = time.Since(rc.Start).Milliseconds()
@@ -488,6 +502,7 @@ type ReplayFile struct {
 	Trace       []string    `json:"trace"`
 	Fingerprint string      `json:"fingerprint"`
 	TreeHash    string      `json:"repo_tree_hash,omitempty"`
+	Note        string      `json:"note,omitempty"`
 }
 
 func writeJSON(path string, v any) error {
